@@ -291,7 +291,8 @@ const GLONAXD: &str = "/verif/.cache/target-repo/debug/glonaxd";
 
 /// the real glonaxd (built with glonax/verif) on two emulated buses with the shipped configuration:
 /// SIGTERM `offset_ms` after it is up, with `clients` connections open on its Unix socket
-fn e2e_scenario(out: &mut Out, n: usize, offset_ms: u64, clients: usize, inject: bool) {
+/// `unlink`: the listener's socket FILE is removed (a tmp reaper, a second instance taking over the path) while the daemon runs.
+fn e2e_scenario(out: &mut Out, n: usize, offset_ms: u64, clients: usize, inject: bool, unlink: bool) {
     use std::io::Write;
     use std::os::unix::process::ExitStatusExt;
     if !std::path::Path::new(GLONAXD).exists() {
@@ -366,6 +367,9 @@ fn e2e_scenario(out: &mut Out, n: usize, offset_ms: u64, clients: usize, inject:
             }
         }
     }
+    if unlink {
+        let _ = std::fs::remove_file(dir.join("glonax.sock"));
+    }
     std::thread::sleep(Duration::from_millis(offset_ms));
     for b in &buses {
         let _ = b.sync();
@@ -401,7 +405,7 @@ fn e2e_scenario(out: &mut Out, n: usize, offset_ms: u64, clients: usize, inject:
     let cfg_tok: Vec<String> = cfgs.iter().map(|c| c.tok()).collect();
     let frames: Vec<String> = during.iter().map(|f| if f.is_empty() { "-".to_string() } else { f.join(",") }).collect();
     out.case(
-        &format!("bus e2e{}c{} {} sigterm {}{}", if up { "" } else { "-notup" }, clients, cfg_tok.join("|"), offset_ms, if inject { " burst" } else { "" }),
+        &format!("bus e2e{}c{} {} sigterm {}{}{}", if up { "" } else { "-notup" }, clients, cfg_tok.join("|"), offset_ms, if inject { " burst" } else { "" }, if unlink { " socket-unlinked" } else { "" }),
         &format!("j={} after={} fast={} {}", (exit == "0") as u8, after_n, (ms < FAST_MS) as u8, frames.join(" ")),
         true,
     );
@@ -771,8 +775,13 @@ pub fn run(out: &mut Out, tier: &str, rng: &mut Rng) {
     let mut n = 0;
     for &o in offsets {
         for clients in if thorough { vec![0usize, 1, 3] } else { vec![if o == 0 { 0usize } else { 1 + (o % 2) as usize }] } {
-            e2e_scenario(out, n, o, clients, n % 2 == 1);
+            e2e_scenario(out, n, o, clients, n % 2 == 1, false);
             n += 1;
         }
+    }
+    // the daemon's surroundings change while it runs: its socket file disappears before the request
+    for (o, clients) in if thorough { vec![(0u64, 0usize), (10, 1), (40, 3)] } else { vec![(7u64, 1usize)] } {
+        e2e_scenario(out, n, o, clients, false, true);
+        n += 1;
     }
 }
